@@ -287,4 +287,88 @@ pub mod facade {
       self.0.get_all_topics()
     }
   }
+
+  // ------------------------------------------------------------------
+  // LoadBalancer / OutgoingMessageOrchestrator with a scripted connection; WaitGroup
+  // ------------------------------------------------------------------
+  use crate::socket::connection_iface::ISocketConnection;
+  use crate::socket::patterns::outgoing_orchestrator::OutgoingMessageOrchestrator;
+  use std::sync::atomic::{AtomicBool, AtomicUsize, Ordering as AtomicOrd};
+
+  /// A connection whose pipe is "full" or not as the harness says, counting what it accepted.
+  #[derive(Debug, Default)]
+  pub struct ScriptedConn {
+    pub full: AtomicBool,
+    pub accepted: AtomicUsize,
+  }
+  #[async_trait::async_trait]
+  impl ISocketConnection for ScriptedConn {
+    async fn send_multipart(&self, msgs: FrameBatch) -> Result<(), ZmqError> {
+      self.try_send_multipart_owned_sync(msgs).map_err(|(_, e)| e)
+    }
+    fn try_send_multipart_owned_sync(&self, msgs: FrameBatch) -> Result<(), (FrameBatch, ZmqError)> {
+      if self.full.load(AtomicOrd::SeqCst) {
+        Err((msgs, ZmqError::ResourceLimitReached))
+      } else {
+        self.accepted.fetch_add(1, AtomicOrd::SeqCst);
+        Ok(())
+      }
+    }
+    async fn close_connection(&self) -> Result<(), ZmqError> {
+      Ok(())
+    }
+    fn as_any(&self) -> &dyn std::any::Any {
+      self
+    }
+  }
+
+  pub struct OrchestratorX(OutgoingMessageOrchestrator);
+  impl OrchestratorX {
+    pub fn new() -> Self {
+      Self(OutgoingMessageOrchestrator::new())
+    }
+    pub fn add_connection(&self, uri: &str, conn: Arc<ScriptedConn>) {
+      self.0.add_connection(uri.to_string(), conn)
+    }
+    pub fn remove_connection(&self, uri: &str) {
+      self.0.remove_connection(uri)
+    }
+    pub fn has_connections(&self) -> bool {
+      self.0.has_connections()
+    }
+    pub async fn wait_for_connection(&self) -> Result<(), ZmqError> {
+      self.0.wait_for_connection().await
+    }
+    pub fn try_route_sync(&self, msgs: FrameBatch) -> Result<(), ZmqError> {
+      self.0.try_route_sync(msgs).map_err(|(_, e)| e)
+    }
+    pub async fn route_message(&self, msgs: FrameBatch, wait_for_peer: bool) -> Result<(), ZmqError> {
+      self.0.route_message(msgs, wait_for_peer).await.map_err(|(_, e)| e)
+    }
+    pub fn deactivate(&self) {
+      self.0.deactivate()
+    }
+  }
+
+  pub struct WaitGroupX(crate::runtime::WaitGroup);
+  impl WaitGroupX {
+    pub fn new() -> Self {
+      Self(crate::runtime::WaitGroup::new())
+    }
+    pub fn add(&self, n: usize) {
+      self.0.add(n)
+    }
+    pub fn done(&self) {
+      self.0.done()
+    }
+    pub async fn wait(&self) {
+      self.0.wait().await
+    }
+    pub fn get_count(&self) -> usize {
+      self.0.get_count()
+    }
+    pub fn clone_handle(&self) -> Self {
+      Self(self.0.clone())
+    }
+  }
 }
